@@ -258,7 +258,7 @@ class Scenario:
                 shutil.rmtree(d, ignore_errors=True)
         return self._stale
 
-    def run(self, inject=None, keep=False, shim=None):
+    def run(self, inject=None, keep=False, shim=None, closeloss=False):
         """one run under strace; returns dict(calls, rc, stderr, state, emu, dir)"""
         d = core.mkscratch("fs")
         try:
@@ -280,7 +280,9 @@ class Scenario:
                 for root in (env.get("OVNI_TMPDIR"), env["OVNI_TRACEDIR"]):
                     if root:
                         os.makedirs(os.path.join(root, "loom.node0", "proc.999", "thread.999"))
-            if shim:
+            if shim and closeloss:
+                env.update({"LD_PRELOAD": shim, "VERIF_CLOSE_LOSS": "1"})
+            elif shim:
                 env.update({"LD_PRELOAD": shim, "VERIF_SHORTWRITE": "40"})
             cmd = ["strace", "-f", "-o", os.path.join(d, "strace.log"), "-e", "trace=" + TRACED]
             if inject:
@@ -416,6 +418,19 @@ def main(pid, tier):
             else:
                 execs.append(records_for(sc, ref, res, "fault", outcome))
                 owners.append((name, "short writes", res))
+        if pid == "C10":
+            # the close of the stream reports an error and the data not yet on disk is lost
+            res = sc.run(shim=core.cc_shim(bdir), closeloss=True)
+            mark_stream_writes(res)
+            ck.case("%s:close-reports-lost-writes" % name, nontrivial=True)
+            outcome = "returned" if res["rc"] == 0 else ("aborted" if res["rc"] == 3 else None)
+            if outcome is None:
+                ck.violation("scenario %s with a failing close of the stream: driver ended with status %s\n%s"
+                             % (name, res["rc"], res["stderr"][-600:]), {"stderr.txt": res["stderr"]},
+                             sig="closeloss-exit-%s" % res["rc"])
+            else:
+                execs.append(records_for(sc, ref, res, "faultloss", outcome))
+                owners.append((name, "close of the stream fails, unwritten data lost", res))
         if pid == "C09":
             points = list(range(start, ncalls))
 
